@@ -152,6 +152,26 @@ def check_traj(traj, parent, taus, cell_counts):
                                            case))
                     except Exception as e:
                         vs.append(viol(key + "|reversal_raises", f"{type(e).__name__}", case))
+    # query histories on ONE instance: results must not depend on earlier queries (e.g. a cache keyed by tau only)
+    nc0 = cell_counts[-1]
+    queries = [(t, m) for t in taus for m in (False, True)]
+    pairs = [(a, b) for a in queries for b in queries if a != b and (L <= 3 or a[0] == b[0] or (L <= 5 and a[1] == b[1] and abs(a[0] - b[0]) == 1))]
+    for a, b in pairs:
+        try:
+            inst = MSM(arr, total_num_cells=nc0)
+            inst.get_one_tau_transition_matrix(a[0], noncorrelated_windows=a[1])
+            T2 = np.asarray(inst.get_one_tau_transition_matrix(b[0], noncorrelated_windows=b[1]).toarray())
+            T3 = np.asarray(inst.get_one_tau_transition_matrix(a[0], noncorrelated_windows=a[1]).toarray())
+        except Exception as e:
+            vs.append(viol(f"C12|traj={ts}|reuse|raises", f"{type(e).__name__}", case))
+            break
+        E2, _ = model_matrix(traj, b[0], b[1], nc0)
+        E3, _ = model_matrix(traj, a[0], a[1], nc0)
+        if not (np.allclose(T2, E2, rtol=0, atol=TOL) and np.allclose(T3, E3, rtol=0, atol=TOL)):
+            vs.append(viol(f"C12|traj={ts}|reuse|first=tau{a[0]},{'noncorr' if a[1] else 'sliding'}|then=tau{b[0]},"
+                           f"{'noncorr' if b[1] else 'sliding'}", "a query on the same MSM instance depends on an earlier "
+                           "query", case, expected=E2.tolist(), observed=T2.tolist()))
+            break
     # all-tau getter == individual getters (same object, repeated calls)
     nc = cell_counts[0]
     try:
